@@ -105,12 +105,17 @@ std::string alt_text(const AutDescription& d, uint32_t style)
 	os << "Transitions\n";
 	for (auto& t : d.transitions) {
 		os << ((style / 16) % 2 ? "  " : "") << t.second;
+		// white space the grammar allows inside a left-hand side: between the symbol and '(', after '(', around ',' and
+		// before ')' - also when nothing stands between the parentheses ("a( ) -> q" is a nullary rule)
+		static const char* inner[] = {"", "", " ", "\t", "  ", " \t"};
+		const std::string in1 = inner[(style >> 16) % 6], in2 = inner[(style >> 19) % 6], pre = inner[(style >> 22) % 6];
 		if (!t.first.empty() || (style / 32) % 2) {
-			os << "(";
+			os << pre << "(" << in1;
 			for (size_t i = 0; i < t.first.size(); ++i) os << (i ? ((style / 64) % 2 ? " , " : ",") : "") << t.first[i];
-			os << ")";
+			os << in2 << ")";
 		}
-		os << ((style / 128) % 2 ? " -> " : "  ->  ") << t.third << "\n";
+		static const char* arrows[] = {" -> ", "  ->  ", "->", "\t->\t", " ->", "-> "};
+		os << arrows[((style / 128) % 2) + 2 * ((style >> 25) % 3)] << t.third << ((style >> 27) % 3 == 0 ? " " : "") << "\n";
 		if ((style / 256) % 2) os << "\n";
 	}
 	std::string out = os.str();
